@@ -22,6 +22,7 @@ import OFV.Proofs.C09Sum
 import OFV.Proofs.C09JwEq
 import OFV.Proofs.C09BkEq
 import OFV.Proofs.C09Struct
+import OFV.Proofs.C09Shaped
 
 namespace OFV.C09
 open OFV.Model.C09 OFV.Spec.C09
@@ -575,6 +576,21 @@ theorem bct_concat_sound (a f c : Code) (h : a.imulCode f = .ok c) (ha : Shaped 
     (hR : binaryCodeTransform 0 H c = .ok R) :
     Sem.den .qubit R [wq] [xq] = Spec.melF H out s :=
   bct_concat_sound' a f c h ha sa dom hA H R hwf v u hv hu wq xq s out hw hx hs ho hpres hR
+
+/-- every constructor of binary_codes.py yields a well-shaped code (`Shaped`: encoder `n_qubits x n_modes`, one decoder
+component per mode, decoder variables below `n_qubits`), for every parameter -/
+theorem constructors_shaped :
+    (∀ n c, jordanWignerCode n = .ok c → Shaped c) ∧ (∀ n c, bravyiKitaevCode n = .ok c → Shaped c) ∧
+    (∀ n c, parityCode n = .ok c → Shaped c) ∧ (∀ n odd c, checksumCode n odd = .ok c → Shaped c) ∧
+    (∀ h c, interleavedCode (2 * h) = .ok c → Shaped c) ∧ (∀ e c, weightOneBinaryAddressingCode e = .ok c → Shaped c) ∧
+    (∀ c, weightOneSegmentCode = .ok c → Shaped c) ∧ (∀ c, weightTwoSegmentCode = .ok c → Shaped c) :=
+  ⟨jw_shaped, bk_shaped, parity_shaped, checksum_shaped, interleaved_shaped, w1ba_shaped, w1seg_shaped, w2seg_shaped⟩
+
+/-- **every code expression the driver builds** (`CExpr.build`: the constructors combined with `+`, integer `*` and
+concatenation, to any depth) is well shaped and has the decoder structure `binary_code_transform_sound` needs — so the
+validity / soundness theorems compose over all code expressions. -/
+theorem code_expression_shaped_struct (e : CExpr) (c : Code) (h : e.build = .ok c) : Shaped c ∧ Struct c :=
+  cexpr_shaped_struct e c h
 
 /-! ## the literal segment codes (tables re-extracted from the source on every run) -/
 
